@@ -744,12 +744,14 @@ def _wire_fn(f):
     return w
 
 
-def to_req(case, schedule=None):
+def to_req(case, schedule=None, nschedule=None):
     req = {"op": "reconcile", "trig": to_wire(case["trig"]), "main": case["main"],
            "defs": [{"name": w["name"], "steps": [_wire_step(s) for s in w["steps"]]} for w in case["defs"]],
            "fns": [[k, _wire_fn(f)] for k, f in case["fns"].items()]}
     if schedule is not None:
         req["schedule"] = schedule
+    if nschedule is not None:        # path-addressed events (inner steps of sub-workflows included)
+        req["nschedule"] = nschedule
     return req
 
 
